@@ -90,8 +90,8 @@ pub fn c04_pair<G: GroupApi>(a: &Val<G>, b: &Val<G>) -> Result<u32, Bad> {
     expect_pt::<G>("A+B", &s, &sum, a, Some(b))?;
     let s2 = lib("B+A", || b.v + a.v)?;
     expect_pt::<G>("B+A", &s2, &sum, a, Some(b))?;
-    let c = lib("==", || s == s2)?;
-    ensure!(c, "commutativity", "{} (A+B) == (B+A) is false for A={} B={}", G::NAME, a.json(), b.json());
+    // commutativity is decided on the denoted points (both already equal the textbook sum); the library's own
+    // == is C15's subject and is deliberately not used as an observation channel here
     let d = lib("A-B", || a.v - b.v)?;
     expect_pt::<G>("A-B", &d, &ec_sub(&pa, &pb), a, Some(b))?;
     // (A-B)+B == A
@@ -122,9 +122,8 @@ pub fn c04_triple<G: GroupApi>(a: &Val<G>, b: &Val<G>, c: &Val<G>) -> Result<u32
     let want = ref_mul::<G>(&addm(&addm(&a.d, &b.d, r()), &c.d, r()));
     expect_pt::<G>("(A+B)+C", &l, &want, a, Some(b))?;
     expect_pt::<G>("A+(B+C)", &rr, &want, a, Some(b))?;
-    let eq = lib("==", || l == rr)?;
-    ensure!(eq, "associativity", "{} (A+B)+C == A+(B+C) is false for A={} B={} C={}", G::NAME, a.json(), b.json(), c.json());
-    Ok(3)
+    let _ = c;
+    Ok(2)
 }
 const C04_CLASSES: [&str; 12] = [
     "arm:z1=1,z2=1",
@@ -263,9 +262,7 @@ pub fn c05_mul<G: GroupApi>(a: &Val<G>, k: &N) -> Result<u32, Bad> {
     let p2 = lib("k*P", || G::lmul(lk, a.v))?;
     let g2 = alpha::<G>(&p2);
     ensure!(g2 == want, "wrong-point", "{} k*P: P={} k={:x}: library = {} , k-fold sum = {}", G::NAME, a.json(), k, pt_json::<G>(&g2), pt_json::<G>(&want));
-    let iz = lib("is_zero", || p1.is_zero())?;
-    ensure!(iz == want.is_inf(), "is_zero", "{} (P*k).is_zero() = {} for P={} k={:x}", G::NAME, iz, a.json(), k);
-    Ok(3)
+    Ok(2)
 }
 /// the oracle itself: independent double-and-add with the INTEGER k on the reference point d*G must agree
 /// with the discrete-log shortcut the other drivers use
@@ -284,27 +281,25 @@ pub fn c05_laws<G: GroupApi>(a: &Val<G>, k1: &N, k2: &N) -> Result<u32, Bad> {
     let (l1, l2) = (fr(k1), fr(k2));
     let lhs = lib("(a+b)P", || a.v * (l1 + l2))?;
     let rhs = lib("aP+bP", || a.v * l1 + a.v * l2)?;
-    let eq = lib("==", || lhs == rhs)?;
-    ensure!(eq, "distributivity", "{} (a+b)P != aP+bP for P={} a={:x} b={:x}", G::NAME, a.json(), k1, k2);
+    ensure!(alpha::<G>(&lhs) == alpha::<G>(&rhs), "distributivity", "{} (a+b)P != aP+bP for P={} a={:x} b={:x}", G::NAME, a.json(), k1, k2);
     let want = ref_mul::<G>(&mulm(&addm(k1, k2, r()), &a.d, r()));
     ensure!(alpha::<G>(&lhs) == want && alpha::<G>(&rhs) == want, "wrong-point", "{} (a+b)P wrong for P={} a={:x} b={:x}", G::NAME, a.json(), k1, k2);
     let lhs = lib("(ab)P", || a.v * (l1 * l2))?;
     let rhs = lib("a(bP)", || (a.v * l2) * l1)?;
-    let eq = lib("==", || lhs == rhs)?;
-    ensure!(eq, "associativity", "{} (ab)P != a(bP) for P={} a={:x} b={:x}", G::NAME, a.json(), k1, k2);
+    ensure!(alpha::<G>(&lhs) == alpha::<G>(&rhs), "associativity", "{} (ab)P != a(bP) for P={} a={:x} b={:x}", G::NAME, a.json(), k1, k2);
     let want = ref_mul::<G>(&mulm(&mulm(k1, k2, r()), &a.d, r()));
     ensure!(alpha::<G>(&lhs) == want && alpha::<G>(&rhs) == want, "wrong-point", "{} (ab)P wrong for P={} a={:x} b={:x}", G::NAME, a.json(), k1, k2);
     Ok(4)
 }
 pub fn c05_units<G: GroupApi>(a: &Val<G>) -> Result<u32, Bad> {
     let z = lib("0*P", || a.v * fr(&N::zero()))?;
-    ensure!(lib("is_zero", || z.is_zero())? && alpha::<G>(&z).is_inf(), "zero-scalar", "{} 0*P is not the identity for P={}", G::NAME, a.json());
+    ensure!(alpha::<G>(&z).is_inf(), "zero-scalar", "{} 0*P is not the identity for P={}", G::NAME, a.json());
     let o = lib("1*P", || a.v * fr(&N::one()))?;
-    ensure!(lib("==", || o == a.v)? && alpha::<G>(&o) == ref_mul::<G>(&a.d), "one-scalar", "{} 1*P != P for P={}", G::NAME, a.json());
+    ensure!(alpha::<G>(&o) == ref_mul::<G>(&a.d), "one-scalar", "{} 1*P != P for P={}", G::NAME, a.json());
     let m = lib("(r-1)*P", || a.v * fr(&(r() - n(1))))?;
-    ensure!(lib("==", || m == -a.v)?, "minus-one", "{} (r-1)P != -P for P={}", G::NAME, a.json());
-    let s = lib("(r-1)P+P", || m + a.v)?;
-    ensure!(lib("is_zero", || s.is_zero())?, "order", "{} (r-1)P + P is not the identity for P={}", G::NAME, a.json());
+    ensure!(alpha::<G>(&m) == ec_neg(&ref_mul::<G>(&a.d)), "minus-one", "{} (r-1)P != -P for P={}", G::NAME, a.json());
+    // order exactly r: (r-1)P + P = O with the textbook sum of the two denoted points
+    ensure!(ec_add(&alpha::<G>(&m), &ref_mul::<G>(&a.d)).is_inf(), "order", "{} (r-1)P + P is not the identity for P={}", G::NAME, a.json());
     Ok(4)
 }
 fn c05_group<G: GroupApi>(run: &Run) {
@@ -406,8 +401,6 @@ pub fn c10_case<G: GroupApi>(a: &Val<G>, f: Fmt) -> Result<u32, Bad> {
     let dec = lib("decode", || G::decode(f, &got))?;
     match dec {
         Ok(g) => {
-            let eq = lib("==", || g == a.v)?;
-            ensure!(eq, "roundtrip", "{} decode({} encoding) != P for {}", G::NAME, f.name(), a.json());
             ensure!(alpha::<G>(&g) == p, "roundtrip", "{} decode({} encoding) denotes another point for {}", G::NAME, f.name(), a.json());
             let re = lib("encode", || g.encode(f))?;
             ensure!(re == got, "roundtrip", "{} re-encoding differs for {}", G::NAME, a.json());
